@@ -44,7 +44,7 @@ pub struct Profile {
 }
 
 pub const MIXED: Profile = Profile { name: "mixed", w: [10, 6, 10, 8, 3, 1, 4, 2, 1, 1], adversarial_16: 2, extra_ask_16: 1, stray_coin_16: 1, funds_games_16: 1, max_pairs: 3, connected: false, hostile: false, special: None };
-pub const SWAPPY: Profile = Profile { name: "swappy", w: [6, 2, 14, 12, 2, 0, 4, 0, 0, 1], adversarial_16: 3, extra_ask_16: 2, stray_coin_16: 1, funds_games_16: 0, max_pairs: 3, connected: false, hostile: false, special: None };
+pub const SWAPPY: Profile = Profile { name: "swappy", w: [6, 2, 14, 12, 2, 0, 4, 0, 0, 1], adversarial_16: 3, extra_ask_16: 2, stray_coin_16: 1, funds_games_16: 1, max_pairs: 3, connected: false, hostile: false, special: None };
 pub const SETTLE: Profile = Profile { name: "settlement", w: [6, 2, 12, 14, 2, 1, 2, 0, 0, 0], adversarial_16: 9, extra_ask_16: 1, stray_coin_16: 1, funds_games_16: 5, max_pairs: 3, connected: false, hostile: false, special: None };
 pub const FUNDS: Profile = Profile { name: "funds", w: [12, 1, 14, 6, 1, 0, 0, 0, 0, 0], adversarial_16: 3, extra_ask_16: 1, stray_coin_16: 0, funds_games_16: 11, max_pairs: 2, connected: false, hostile: false, special: None };
 pub const LIQUIDITY: Profile = Profile { name: "liquidity", w: [12, 12, 6, 5, 4, 2, 1, 2, 0, 1], adversarial_16: 1, extra_ask_16: 1, stray_coin_16: 1, funds_games_16: 0, max_pairs: 2, connected: false, hostile: false, special: None };
@@ -156,6 +156,13 @@ pub fn gen_world_cfg(s: &mut Src, prof: &Profile) -> WorldCfg {
         denoms,
         unregistered: vec![],
         staged_decimals,
+        // half of the worlds: the holders' allowance toward the router is one their balances can cover
+        // (2^0 .. 2^35), or absent
+        router_allowance: match s.weighted(&[4, 3, 1]) {
+            0 => 0,
+            1 => 1 + s.below(36) as u8,
+            _ => 255,
+        },
     }
 }
 
@@ -711,7 +718,26 @@ pub fn gen_allowance(w: &World, s: &mut Src, _prof: &Profile) -> Step {
 pub fn gen_forged(w: &World, s: &mut Src, _prof: &Profile) -> Step {
     let actor = w.actors[s.idx(w.actors.len())].to_string();
     let p = s.idx(w.pairs.len());
-    match s.below(7) {
+    match s.below(8) {
+        7 => {
+            // the router's public cw20 `Receive` entry hand-delivered by an ordinary account (no token was
+            // sent), its free `sender` field naming ANOTHER holder - every holder has an open allowance toward
+            // the router - with a route whose first hop offers a cw20 asset: nothing of that holder may move
+            let others: Vec<String> = w.holders().iter().map(|h| h.to_string()).filter(|h| *h != actor).collect();
+            let victim = others[s.idx(others.len())].clone();
+            let cands: Vec<(usize, usize)> = (0..w.pairs.len()).flat_map(|i| (0..2).map(move |k| (i, k))).filter(|(i, k)| !w.pairs[*i].infos[*k].is_native_token()).collect();
+            // (only while the router holds none of the offered token: then no reading of the call can move anything)
+            let cands: Vec<(usize, usize)> = cands.into_iter().filter(|(i, k)| w.balance(&w.pairs[*i].infos[*k], w.router.as_str()) == 0).collect();
+            if cands.is_empty() {
+                return Step { sender: actor.clone(), call: Call::Router { msg: RouterExec::AssertMinimumReceive { asset_info: w.pairs[p].infos[0].clone(), prev_balance: Uint128::zero(), minimum_receive: Uint128::zero(), receiver: actor } }, funds: vec![] };
+            }
+            let (pi, side) = cands[s.idx(cands.len())];
+            let pr = &w.pairs[pi];
+            let ops = vec![SwapOperation::HaloSwap { offer_asset_info: pr.infos[side].clone(), ask_asset_info: pr.infos[1 - side].clone() }];
+            let to = match s.below(3) { 0 => None, 1 => Some(actor.clone()), _ => Some(who(w, s)) };
+            let hook = RouterHook::ExecuteSwapOperations { operations: ops, minimum_receive: None, to };
+            Step { sender: actor, call: Call::Router { msg: RouterExec::Receive(cw20::Cw20ReceiveMsg { sender: victim, amount: Uint128::new(1 + s.bits_u128(60)), msg: to_binary(&hook).unwrap() }) }, funds: vec![] }
+        }
         5 | 6 => {
             // a cw20 ASSET token (not the LP token) delivers the withdraw hook: `Send` of the asset to the pair
             // with the WithdrawLiquidity payload, of any magnitude up to the actor's balance
